@@ -153,6 +153,13 @@ func (t *traceCache) Set(ctx context.Context, registry string, scheme auth.Schem
 		t.mu.Unlock()
 		inst, ok := auth.VerifInFlight(t.inner, registry, scheme, key)
 		t.add(setLog{kind: 's', call: id, inst: inst, ok: ok})
+		defer func() {
+			// a panicking fetch: Once.Do's deferred recover hands the slot over, like a cancellation
+			if rec := recover(); rec != nil {
+				t.add(setLog{kind: 'c', call: id})
+				panic(rec)
+			}
+		}()
 		v, e := fetch(ctx)
 		switch {
 		case e == nil:
